@@ -218,7 +218,7 @@ def replay(binary, wd, tlc_out, tables="plain", adapters="go", workers=None, per
         p = subprocess.Popen([binary, "-test.run", "^TestReplay$", "-test.timeout", "0"], env=env, stdout=lf,
                              stderr=subprocess.STDOUT, cwd=wd)
         procs.append((p, res, lf, d))
-    summaries, results = [], []
+    summaries, results, crashes = [], [], []
     for p, res, lf, d in procs:
         try:
             rc = p.wait(timeout=max(1, timeout - (time.time() - t0)))
@@ -229,7 +229,22 @@ def replay(binary, wd, tlc_out, tables="plain", adapters="go", workers=None, per
         lf.close()
         shutil.rmtree(d, ignore_errors=True)
         if rc != 0:
-            sys.stderr.write(open(lf.name).read()[-3000:])
+            logtxt = open(lf.name, errors="replace").read()
+            cur = ""
+            if os.path.exists(res + ".cur"):
+                cur = open(res + ".cur").read()
+            m = re.search(r"^(panic: .*|fatal error: .*)$", logtxt, re.M)
+            product = re.search(r"^github\.com/mimiro-io/datahub/internal/(?!verifharness)\S+", logtxt, re.M)
+            if m and product and cur:
+                # the hub code itself crashed the process while replaying a behaviour: that is an observation
+                first = cur.split("\n", 1)
+                crashes.append({"what": m.group(1), "where": product.group(0), "behaviour": first[0],
+                                "steps": json.loads(first[1]) if len(first) > 1 else [], "log_tail": logtxt[-2500:]})
+                for q, *_ in procs:
+                    if q.poll() is None:
+                        q.kill()
+                break
+            sys.stderr.write(logtxt[-3000:])
             raise Inconclusive(f"replay worker exited {rc}")
         got_summary = False
         with open(res) as fh:
@@ -242,6 +257,15 @@ def replay(binary, wd, tlc_out, tables="plain", adapters="go", workers=None, per
                     results.append(r)
         if not got_summary:
             raise Inconclusive("replay worker wrote no summary")
+    if crashes:
+        tot = {"behaviours": 0, "replays": 1, "checks": 1, "skipped": 0, "nontrivial_distinct": 1, "diverging": 1,
+               "errors": 0, "samples": [], "wall_s": round(time.time() - t0, 1)}
+        c = crashes[0]
+        results = [{"idx": -1, "table": "?", "adapter": "?", "steps": c["steps"],
+                    "divs": [{"kind": "process-crash", "adapter": "?", "query": c["behaviour"],
+                              "expected": "the hub process stays alive", "actual": c["what"] + " in " + c["where"],
+                              "note": c["log_tail"]}]}]
+        return tot, results
     tot = {"behaviours": 0, "replays": 0, "checks": 0, "skipped": 0, "nontrivial_distinct": 0, "diverging": 0,
            "errors": 0, "samples": []}
     for s in summaries:
